@@ -177,7 +177,8 @@ func writeNamespaceMembers(w *formatting.IndentedWriter, ns *dsl.Namespace) {
 							" &&\n",
 							td.Fields,
 							func(w *formatting.IndentedWriter, i int, f *dsl.Field) {
-								fmt.Fprintf(w, "%s == other.%s", common.FieldIdentifierName(f.Name), common.FieldIdentifierName(f.Name))
+								// (this-> so that a field named like the parameter is not hidden by it)
+								fmt.Fprintf(w, "this->%s == other.%s", common.FieldIdentifierName(f.Name), common.FieldIdentifierName(f.Name))
 							})
 					}
 					w.WriteStringln(";")
